@@ -82,7 +82,8 @@ def check_deck(deck, seed, flags=(), lattice=(), n_points=60, want=('C01', 'C08'
             # "bounds a converted cell": referenced by a cell of non-zero importance that was actually converted
             # (a cell that is empty, e.g. because another cell already covers all space, yields no volume)
             converted = c.id in f.volumes or c.fill is not None or c.fill_array is not None
-            if c.imp != 0 and c.universe == 0 and converted:
+            # (a cell with TRCL uses moved copies of its surfaces, not the surfaces themselves)
+            if c.imp != 0 and c.universe == 0 and converted and c.trcl is None:
                 u = set()
                 _collect_surfaces(c.expr, u, deck, set())
                 bounding |= u
@@ -109,8 +110,17 @@ def check_deck(deck, seed, flags=(), lattice=(), n_points=60, want=('C01', 'C08'
                 bc_fail('entry-designates-a-surface-that-is-not-written',
                      f'surface {s.bc}{sid}: written surfaces {sorted(f.surfaces)[:12]}')
         for sid, kinds in entries.items():
-            if sid not in flagged:
-                bc_fail('entry-on-a-surface-that-is-not-flagged', f'entry {kinds} on {sid}')
+            if sid in flagged:
+                continue
+            if sid not in deck.surfs:
+                # a surface number generated by the converter (moved copy of a surface for a cell with TRCL /
+                # FILL): the copy of a flagged surface carries the flag; it must at least be written
+                if sid not in f.surfaces:
+                    bc_fail('entry-on-a-generated-copy-of-a-flagged-surface-that-is-not-written',
+                            f'generated surface {sid} (moved copy of a flagged surface, merged by de-duplication or '
+                            'used by no converted cell)')
+                continue
+            bc_fail('entry-on-a-surface-that-is-not-flagged', f'entry {kinds} on {sid}')
     if 'C10' in want and f.compositions:
         _check_compositions(deck, f, fail)
     gc = {}
@@ -200,7 +210,8 @@ def _collect_surfaces(e, out, deck=None, seen=None):
     elif e[0] == '#':
         if deck is not None and e[1] not in seen:
             seen.add(e[1])
-            _collect_surfaces(deck.cells[e[1]].expr, out, deck, seen)
+            if deck.cells[e[1]].trcl is None:      # a cell with TRCL is made of moved copies of its surfaces
+                _collect_surfaces(deck.cells[e[1]].expr, out, deck, seen)
     else:
         for a in e[1:]:
             _collect_surfaces(a, out, deck, seen)
